@@ -1020,6 +1020,9 @@ static void template_straddle(hist_t *H) {
   H->hot[H->nhot++] = K;
   H->max_snaps = MAX_SNAPS;
   iom_slow(IOP_CREATE, PC_TABLE, 1500);
+  /* direct neighbours, so that the files around the split also hold other keys */
+  if (K > 0) do_put(H, K - 1, 100 + vr_uniform(&H->r, 2000), 0);
+  if (K + 1 < (int)H->m.nrows) do_put(H, K + 1, 100 + vr_uniform(&H->r, 2000), 0);
   for (i = 0; i < nver && H->nsnaps < MAX_SNAPS; i++) {
     do_put(H, K, (300 << 10) + vr_uniform(&H->r, 4096), 0);
     H->m.rows[K].v[H->m.rows[K].nv - 1].vid |= 0; /* keep */
@@ -1037,6 +1040,26 @@ static void template_straddle(hist_t *H) {
   ldb_verif_wait_idle(H->h.db);
   layoutmon_check(H->h.db, &H->h, "T1-built", 0);
   full_check(H, "T1-built");
+  /* while the versions are still pinned: manual compactions of the level that holds the split key over a range
+     that ends just before it / starts just after it (the file that ends with the key's newer versions is selected
+     through its other keys; the files holding the older versions must follow it down) */
+  if (K > 0 && vr_chance(&H->r, 700)) {
+    ldb_slice_t e = row_key(H, K - 1);
+    ldb_test_compact_range(H->h.db, 2, NULL, &e);
+    H->compactions++;
+    ldb_verif_wait_idle(H->h.db);
+    layoutmon_check(H->h.db, &H->h, "T1-ranged-below", 0);
+    full_check(H, "T1-ranged-below");
+    vh_count("template_T1_ranged_below", 1);
+  }
+  if (K + 1 < (int)H->m.nrows && vr_chance(&H->r, 400)) {
+    ldb_slice_t b = row_key(H, K + 1);
+    ldb_test_compact_range(H->h.db, 2 + (int)vr_uniform(&H->r, 2), &b, NULL);
+    H->compactions++;
+    ldb_verif_wait_idle(H->h.db);
+    layoutmon_check(H->h.db, &H->h, "T1-ranged-above", 0);
+    full_check(H, "T1-ranged-above");
+  }
   /* release the pins, newest first or oldest first */
   while (H->nsnaps > 0) snap_release_at(H, vr_uniform(&H->r, 2) ? 0 : H->nsnaps - 1);
   shadow_start(H);
